@@ -16,6 +16,8 @@ RULE = ('Hypothesis-generated World histories (create/add/replace/remove/delete/
         'enabling assignment; is_handler(c) <=> attached after every step; probes reach exactly the attached '
         'listeners once. '
         'A small share of the histories is AMPLIFIED (one operation, each operation or the whole history repeated 70-1100 times; a long disabled period is released and judged at the end). '
+        ''
+        'Further generator dimensions: classes defined in the middle of the history, handlers whose __events__ mapping lives on the instance. '
         'Non-trivial = a handler component detached by replacement, immediate deletion or '
         'clear, or a lifecycle callback postponed across a disable/enable cycle, or reuse after clear. '
         'Distinct = sha1 of canonical JSON.')
